@@ -267,7 +267,7 @@ func (x *c8Exec) msgReq(v, nflags int) (*db.CreateMessageReq, c8Msg) {
 func (x *c8Exec) cmp(method, args string, want, got any) {
 	x.st.Checks++
 	if !reflect.DeepEqual(want, got) {
-		x.fail("result", "%s(%s): model %v, implementation %v", method, args, want, got)
+		x.fail("result", method, "%s(%s): model %v, implementation %v", method, args, want, got)
 	}
 }
 
@@ -276,14 +276,14 @@ func (x *c8Exec) cmpSet(method, args string, want, got []string) {
 	sort.Strings(want)
 	sort.Strings(got)
 	if d := c8DiffSeq(want, got); d != "" {
-		x.fail("result", "%s(%s): %s", method, args, d)
+		x.fail("result", method, "%s(%s): %s", method, args, d)
 	}
 }
 
 func (x *c8Exec) cmpSeq(method, args string, want, got []string) {
 	x.st.Checks++
 	if d := c8DiffSeq(want, got); d != "" {
-		x.fail("result", "%s(%s): %s", method, args, d)
+		x.fail("result", method, "%s(%s): %s", method, args, d)
 	}
 }
 
@@ -987,9 +987,6 @@ func init() {
 	c8Reg("RemoveMessagesFromMailbox", true, func(x *c8Exec, a core.Action) {
 		id, b := x.pickMbox(a.Arg(1))
 		n := a.Arg(0)
-		if !x.knob("k_rmbulk") {
-			n = min(n, db.ChunkLimit)
-		}
 		if b == nil {
 			n = max(n, 1)
 		}
@@ -1236,9 +1233,9 @@ func init() {
 			x.st.Checks++
 			switch _, used := x.m.MsgByRem[string(rem)]; {
 			case err != nil:
-				x.fail("result", "%s(%s): GetMessageRemoteID afterwards failed: %v", a.K, c8Short(id), err)
+				x.fail("result", a.K+" remote id", "%s(%s): GetMessageRemoteID afterwards failed: %v", a.K, c8Short(id), err)
 			case string(rem) == m.RemoteID || used || !strings.HasPrefix(string(rem), "DELETED-"):
-				x.fail("result", "%s(%s): remote id afterwards is %q (before %q): not a fresh DELETED-… id", a.K, c8Short(id), c8Norm(string(rem)), m.RemoteID)
+				x.fail("result", a.K+" remote id", "%s(%s): remote id afterwards is %q (before %q): not a fresh DELETED-… id", a.K, c8Short(id), c8Norm(string(rem)), m.RemoteID)
 			default:
 				x.m.setRemote(id, string(rem))
 			}
@@ -1290,14 +1287,19 @@ func init() {
 		}
 	})
 	c8Reg("UpdateRemoteMessageID", true, func(x *c8Exec, a core.Action) {
-		if !x.knob("k_updremote") {
-			return
-		}
-		class := c8Existing
-		if a.Arg(2)%4 == 3 {
+		// Ordinary runs change the remote id of messages that are in no mailbox; the
+		// knob run addresses members (the per-mailbox copy of the remote id goes stale).
+		class := c8NonMember
+		switch {
+		case x.knob("k_updremote"):
+			class = c8Member
+		case a.Arg(2)%4 == 3:
 			class = c8Missing
 		}
 		id := x.pickMsg(a.Arg(1), class)
+		if !x.knob("k_updremote") && x.m.isMember(id) {
+			return
+		}
 		_, ok := x.m.Msgs[id]
 		x.nextRem++
 		rem := fmt.Sprintf("m%d-new", x.nextRem)
